@@ -73,6 +73,9 @@ type Op struct {
 	Raw        string        `json:"raw,omitempty"` // server mode: raw request bytes
 	Parts      []string      `json:"parts,omitempty"`    // server mode: further pieces written after Raw, PartGap apart
 	PartGap    time.Duration `json:"part_gap,omitempty"`
+	Frag       int           `json:"frag,omitempty"`     // server mode: client->proxy bytes delivered in fragments of this size
+	FragGap    time.Duration `json:"frag_gap,omitempty"`
+	NoReqID    bool          `json:"no_req_id,omitempty"` // server mode: do not send X-Request-Id
 	Tag        string        `json:"tag,omitempty"` // free label for oracles
 	Hold       *Hold         `json:"hold,omitempty"` // directed stall of this operation's goroutine
 }
